@@ -73,7 +73,7 @@ Proof.
   apply app_inj_tail in Hq as [-> ->].
   destruct f as [|f]; [destruct He; lia|]. cbn [bic_loop]. rewrite (link_of_stored d x e Hf).
   pose proof (find_some _ _ _ Hf) as [Hin Hk].
-  destruct (ws_id _ Hwf e Hin) as (Hid & _ & _).
+  destruct (ws_id _ Hwf e Hin) as (Hid & _).
   assert (Hx0 : x <> 0) by (unfold key in Hk; congruence).
   assert (Hcx : canon_of_ref d (mkR x n) = x).
   { unfold canon_of_ref. cbn [ri]. destruct (N.eqb_spec x 0); [contradiction|]. rewrite Hf. reflexivity. }
@@ -92,7 +92,7 @@ Proof.
   - destruct (chain_top _ _ _ _ _ Hc) as [Hf' Hk'].
     unfold num_of. rewrite Hf'. rewrite rev_app_distr. cbn [rev app map canon_below].
     pose proof (find_some _ _ _ Hf') as [Hin' _].
-    destruct (ws_id _ Hwf e' Hin') as (Hid' & _ & _).
+    destruct (ws_id _ Hwf e' Hin') as (Hid' & _).
     destruct (N.eqb_spec (bnum (eb e')) n) as [E|E].
     + eexists. split; [reflexivity|]. unfold canon_of_ref. cbn [ri]. rewrite <- Hk'. unfold key.
       destruct (N.eqb_spec (bid (eb e')) 0); [contradiction|].
@@ -115,7 +115,7 @@ Proof.
   unfold key in Hk0.
   destruct (N.eqb_spec (bnum (eb e)) n) as [E|E].
   - eexists. split; [reflexivity|]. unfold canon_of_ref. cbn [ri].
-    pose proof (find_some _ _ _ Hf) as [Hin _]. destruct (ws_id _ Hwf e Hin) as (Hid & _ & _).
+    pose proof (find_some _ _ _ Hf) as [Hin _]. destruct (ws_id _ Hwf e Hin) as (Hid & _).
     destruct (N.eqb_spec x 0); [congruence|]. rewrite Hf. symmetry. exact Hk0.
   - destruct (bic_loop_walk d n bot Hwf Hz Hbot x _ Hc p e eq_refl (fuel_of d) (enough_fuel_of d x)) as (r & Hr & Hcr).
     exists r. split; [exact Hr|]. rewrite Hcr, Hk0. reflexivity.
@@ -301,7 +301,7 @@ Section Lookups.
   Hypothesis Hnew : f_new (c_filter cfg) = true.
   Hypothesis Hundo : f_undo (c_filter cfg) = true.
 
-  Hypothesis U_id : forall b, In b U -> bid b <> 0 /\ bparent b <> 0 /\ bid b <> bparent b.
+  Hypothesis U_id : forall b, In b U -> bid b <> 0 /\ bid b <> bparent b.
   Hypothesis U_uniq : forall x y, In x U -> In y U -> bid x = bid y -> x = y.
   Hypothesis U_up : forall x y, In x U -> In y U -> bparent x = bid y -> bnum y < bnum x.
   Hypothesis L_id : ri r0 <> 0.
@@ -401,7 +401,7 @@ Section Lookups.
     specialize (Hroot Hci).
     assert (Hf : find (bid b) (store (db s)) = None) by (rewrite Hid; exact Hroot).
     assert (Hk : ~ In (bid b) (keys (store (db s)))) by (apply find_none; exact Hf).
-    destruct (U_id b Hb) as (H1 & H2 & H3).
+    destruct (U_id b Hb) as (H1 & H3).
     unfold fk_step. destruct (N.eqb_spec (bid b) (bparent b)); [contradiction|].
     pose proof Hd as Hd0. unfold dropped in Hd. rewrite Els in *. rewrite Hd, Hci, Hflast.
     replace (bid b =? ri r0) with true by (symmetry; apply N.eqb_eq; exact Hid). cbn [andb].
@@ -540,10 +540,10 @@ Section Lookups.
       apply stepw_quiet; auto. }
     destruct (incl_first cfg s b) eqn:Hni.
     { apply root_w; assumption. }
-    pose proof HI as [Hdb Hfin Hflast Hh]. pose proof Hdb as [Hnd HU Hcoh Hnum Hextra Hlc].
+    pose proof HI as [Hdb Hfin Hflast Hh]. pose proof Hdb as [Hnd HU Hcoh Hnum Hextra Hlc Hrt].
     pose proof (wf_of _ Hdb) as Hwf.
     destruct (find (bid b) (store (db s))) as [e|] eqn:Hf.
-    { rewrite (fk_step_old' U cfg U_id U_uniq s b e HU Hb Hf Hwf Hni). exists s, [], [], [], [], S. split; [reflexivity|].
+    { rewrite (fk_step_old' U r0 cfg U_id U_uniq U_up s b e Hdb Hb Hf Hni). exists s, [], [], [], [], S. split; [reflexivity|].
       apply stepw_quiet; [exact HI|]. left. apply find_is_some_in. eauto. }
     (* a new block *)
     pose proof (inv_add U r0 cfg s Fin S b HI Hb Hf Hni) as HI1.
@@ -558,7 +558,7 @@ Section Lookups.
       destruct (last_sent s) as [ls|]; [apply scss_total; exact Hwf | eauto]. }
     destruct Hsw as (undos & redos & junc & Hsw).
     rewrite (fk_step_new' U r0 cfg U_id s b undos redos junc Hdb Hb Hf Hd Hni Hsw). cbv zeta. fold s1.
-    pose proof HI1 as [Hdb1 _ _ _]. pose proof Hdb1 as [Hnd1 HU1 _ _ _ _].
+    pose proof HI1 as [Hdb1 _ _ _]. pose proof Hdb1 as [Hnd1 HU1 _ _ _ _ _].
     pose proof (wf_of _ Hdb1) as Hwf1.
     change (new_db (db s) b) with (db s1).
     destruct (rs_total (db s1) (c_first cfg) Hwf1 (fuel_of (db s1)) (bid b) (bnum b) [] (enough_fuel_of _ _)) as [[longest reach] Hrs].
@@ -626,7 +626,7 @@ Section Lookups.
         * exact HsH.
         * rewrite app_nil_r. exact HS.
         * intros a [].
-      + destruct (scss_link (db s) _ (bid hd) (bparent b) pH pP Hwf Hneq HcH HcP0) as (C & R & Uh & j & HP & HH & Hsc).
+      + destruct (scss_link (db s) _ (bid hd) (bparent b) pH pP Hwf (di_lid _ _ _ Hdb) Hneq HcH HcP0) as (C & R & Uh & j & HP & HH & Hsc).
         { intros f t e0 Hu He0. exact (tail_disjoint' U r0 cfg U_id U_up L_id (db s) pP (bparent b) Hdb HcP0 f t e0 Hu He0). }
         rewrite Hsc in Hsw. injection Hsw as <- <- <-.
         apply (Hend C R Uh j HP).
@@ -693,7 +693,7 @@ Section Lookups.
     StepW s Fin S b s' evA evI evS Fnew S' -> Ext s' (Fin ++ Fnew) S'.
   Proof.
     intros HI HE Hb (Happ & HI' & _ & _ & _ & _ & _ & Hmono & HFnew & _ & _ & _ & _ & _ & Hcases).
-    pose proof HI as [Hdb Hfin Hflast Hh]. pose proof Hdb as [Hnd HU Hcoh Hnum Hextra Hlc].
+    pose proof HI as [Hdb Hfin Hflast Hh]. pose proof Hdb as [Hnd HU Hcoh Hnum Hextra Hlc Hrt].
     destruct HE as [XL Xlib Xtop Xkept Xbound].
     assert (HLk : fin_linked (Fin ++ Fnew)).
     { apply (fin_linked_app s Fin S b Fnew HI XL). destruct HFnew as [[_ H]|(H1 & H2 & H3 & _)]; [left; exact H | right; auto]. }
@@ -727,7 +727,7 @@ Section Lookups.
       + intros x [<-|[]] _. exact Hst.
       + rewrite Hdb'. cbn [new_db libref]. intros Hne. contradiction.
     - (* a triggering step *)
-      pose proof Hdb3 as [Hnd3 HU3 _ _ _ _].
+      pose proof Hdb3 as [Hnd3 HU3 _ _ _ _ _].
       assert (Hs3 : forall x, st s x -> st s3 x).
       { intros x Hx. unfold st in *. rewrite Hk3. apply in_or_app. left. exact Hx. }
       destruct Hc as [(Hsame & ->)|(libr & Hp)].
@@ -923,7 +923,7 @@ Section Lookups.
       assert (HxU : In x U) by (destruct Hx as [<-|Hx]; [exact HcU | apply HX2U; exact Hx]).
       destruct (st_entry s x (di_inU _ _ _ Hdb) HxU Hsx) as (e & He & Eex & _). eauto.
     - intros x [<-|Hx].
-      + destruct (U_id c HcU) as (_ & _ & H). exact H.
+      + destruct (U_id c HcU) as (_ & H). exact H.
       + intros E0. pose proof (U_up c x HcU (HX2U x Hx) (eq_sym E0)). specialize (Hlt x Hx). lia.
     - (* the top of that chain is the head *)
       assert (Htop : match rev (c :: X2) with t :: _ => bid t | [] => bparent c end = bid hd).
@@ -1059,7 +1059,7 @@ Section Lookups.
         assert (Hfl : num_of (db s) bot = None).
         { destruct (num_of (db s) bot) as [pn|] eqn:Hn0; [|reflexivity]. exfalso.
           destruct (num_of_cases _ (di_extra _ _ _ Hdb) _ _ Hn0) as [(e & He & _)|[_ Hb]]; [congruence|].
-          destruct (U_id top HhU) as (_ & _ & Hsp). congruence. }
+          destruct (U_id top HhU) as (_ & Hsp). congruence. }
         rewrite Hfl. apply canon_walk_above_none. lia.
       + destruct (chain_top _ _ _ _ _ Hq0') as [Hf1 _]. rewrite Hf1.
         rewrite rev_app_distr. cbn [rev app map].
@@ -1216,7 +1216,7 @@ Section Lookups.
       + intros x _ [Hx|Hx]; [left | right; apply Hlow; exact Hx].
         unfold st. rewrite Hdb'. cbn [new_db store]. rewrite keys_snoc. apply in_or_app. left. exact Hx.
       + intros _ _. left. unfold st. rewrite Hdb'. cbn [new_db store]. rewrite keys_snoc. apply in_or_app. right. left. reflexivity.
-    - pose proof Hdb3 as [_ HU3 _ _ _ _].
+    - pose proof Hdb3 as [_ HU3 _ _ _ _ _].
       assert (H3 : forall x, In x U -> st s3 x -> Kept s' x).
       { intros x HxU Hx3. destruct Hc as [(Hsame & _)|(libr & Hp)].
         - left. unfold st. rewrite Hsame. exact Hx3.
